@@ -1291,13 +1291,20 @@ def isReadOnly : Cmd → Bool
 
 /-! ## invariant -/
 
+/-- canonical form of a sorted set: strictly increasing in (score, member) and no member twice
+    (so the "index" — the order — and the member ↦ score map cannot disagree) -/
+def ZCanon (z : ZL) : Prop :=
+  z.Pairwise (fun a b => zLt a b = true) ∧ z.Pairwise (fun a b => a.1 ≠ b.1)
+
+instance : DecidablePred ZCanon := fun z => by unfold ZCanon; infer_instance
+
 /-- no empty collection is stored; inner maps are canonical -/
 def ValueOk : Value → Prop
   | .str _ => True
   | .list l => l ≠ []
   | .set m => m ≠ [] ∧ NMap.WF m
   | .hash h => h ≠ [] ∧ NMap.WF h
-  | .zset z => z ≠ []
+  | .zset z => z ≠ [] ∧ ZCanon z
 
 instance : DecidablePred ValueOk := fun v => by
   cases v <;> unfold ValueOk <;> infer_instance
